@@ -404,6 +404,36 @@ func (rr *raceRun) round(ri int, sample bool) (slow string) {
 			return ""
 		}
 	}
+	// every result must be one that the states the key had in this round allow (the sampled rounds are
+	// re-checked in Coq, srec_ok; this is the same test on every round)
+	states := append([]string{v1}, versions...)
+	for i := 0; i < nw; i++ {
+		ok := false
+		switch results[i] {
+		case "RNil":
+			for _, v := range states {
+				ok = ok || (v != "" && v != asked[i])
+			}
+		case "RNotExist":
+			for _, v := range states {
+				ok = ok || v == ""
+			}
+		case "RCtx":
+			ok = cancelledAt >= 0
+		default:
+			ok = true // panic / undocumented error: reported below
+		}
+		if !ok {
+			var tags []int
+			for _, v := range states {
+				tags = append(tags, vtag(v))
+			}
+			rr.res.Violations = append(rr.res.Violations, raceViolation{Round: ri, Pattern: pat, Procs: c.Procs, RecordVersionTag: worst.cur,
+				TableCount: worst.count, PendingAsked: tags,
+				What: fmt.Sprintf("unsound return %s of call %d, which was given version tag %d (pending_calls_asked_version_tags holds the states of the key in this round)", results[i], i, askedTag[i])})
+			violated = true
+		}
+	}
 	rr.res.Counts["race-pat:"+pat]++
 	if first.count > 0 {
 		rr.res.Counts["race-snapshot-with-entry"]++
